@@ -139,6 +139,17 @@ def run(ctx):
         calls = [{"fn": "f", "args": {"a": rng.randrange(-5, 8), "b": rng.choice([0.5, -1.25, 3.0, 0.1])}, "globals": {"g0": rng.randrange(-3, 6), "g1": rng.choice([0.25, 1.5])} if c_ == 0 else {},
                   "read_globals": ["g0", "g1"]} for c_ in range(2)]
         progs.append((m, calls, text, "straight-line"))
+    # constant casts to unsigned types, negative and beyond 32 bits (the folded constant must be what the VM's CAST computes); raw sources,
+    # compared at the two optimisation settings only
+    for src, args, globs in (("export function f(uint a) -> uint { uint b = a + uint(2.5); return b + uint(7); }", {"a": 3}, []),
+                             ("export function f() -> uint { return uint(-3); }", {}, []),
+                             ("uint g; export function f(uint a) -> uint { g = uint(-1); uint x = a; return x + g; }", {"a": 5}, ["g"]),
+                             ("export function f(uint a) -> uint2 { uint2 v = uint2(-1, a); return v; }", {"a": 2}, []),
+                             ("export function f() -> uint { return uint(4294967298); }", {}, []),
+                             ("export function f(float a) -> float { return a + float(-3) + float(4294967298); }", {"a": 0.5}, []),
+                             ("export function f() -> int { return int(2.5) + int(4294967298.5) + int(0 - 2.5); }", {}, []),
+                             ("export function f() -> uint3 { return uint3(-1, 2.5, -7); }", {}, [])):
+        progs.append((None, [{"fn": "f", "args": dict(args), "globals": {g_: 1 for g_ in globs}, "read_globals": list(globs)}], src, "constcast-raw"))
     jobs = []
     for (m, calls, text, name) in progs:
         jobs.append(vmcases.job(text, calls, optimize=False))
@@ -158,6 +169,8 @@ def run(ctx):
             diff_bad.append((text, calls, {"unoptimised": r0.get("calls"), "optimised": r1.get("calls")})); continue
         if json.dumps(r0["ir"]) != json.dumps(r1["ir"]):
             stats["optimised_ir_changed"] += 1
+        if m is None:
+            continue
         p0 = ircoq.program({"functions": r0["ir"]["functions"], "globals": r0["ir"]["globals"]})
         p1 = ircoq.program({"functions": r1["ir"]["functions"], "globals": r1["ir"]["globals"]})
         # whole-array / whole-structure assignment has reference semantics in the VM (no property speaks of it: C03 and C04 name scalars, vectors and
